@@ -210,3 +210,65 @@ Qed.
 
 Lemma finv_reachable s : reachable fstep f_init s -> FInv s.
 Proof. apply (invariant_reachable _ _ fstep FInv f_init); [apply finv_init|apply finv_step]. Qed.
+
+(* ---------------- deepening round 3: the starter step ---------------- *)
+
+(* ---- what the starter step may and may not do to owed work ---- *)
+Definition plan_routes (p : plan) : list N := match p with PPartial rs _ => rs | PFull => [] end.
+Definition plan_topology (p : plan) : bool := match p with PPartial _ t => t | PFull => false end.
+Definition routes_slot (fl : inflight) : option N := match fl with IPartial r _ => r | IFull _ => None end.
+Definition topology_slot (fl : inflight) : option N := match fl with IPartial _ t => t | IFull _ => None end.
+
+(* No owed work is ever dropped except by covering it with a full fetch: after the starter step a full fetch
+   runs, or every owed client-routes pair / the owed topology re-read is still owed or has just been started
+   in a slot that was free; fetches in flight are only replaced by a full fetch; a full fetch owed by the plan
+   is running afterwards. *)
+Lemma start_due_preserves_work d nx fl p fl' p' nx' : start_due d nx fl p = (fl', p', nx') ->
+  (p = PFull -> is_full fl' = true) /\
+  (is_full fl' = true \/
+   (p' <> PFull /\
+    (forall r, In r (plan_routes p) -> In r (plan_routes p') \/ (routes_slot fl = None /\ routes_slot fl' = Some nx)) /\
+    (plan_topology p = true -> plan_topology p' = true \/ (topology_slot fl = None /\ exists g, topology_slot fl' = Some g /\ nx <= g)) /\
+    (forall f, routes_slot fl = Some f -> routes_slot fl' = Some f) /\
+    (forall f, topology_slot fl = Some f -> topology_slot fl' = Some f))) /\
+  nx <= nx'.
+Proof.
+  unfold start_due. destruct fl as [f0|rf tf]; cbn [is_full negb andb].
+  - intros H. injection H as <- <- <-. split; [intros _; reflexivity|]. split; [left; reflexivity|lia].
+  - destruct p as [|rs t]; cbn [orb].
+    + intros H. injection H as <- <- <-. split; [reflexivity|]. split; [left; reflexivity|lia].
+    + destruct d; cbn [orb].
+      * intros H. injection H as <- <- <-. split; [discriminate|]. split; [left; reflexivity|lia].
+      * destruct rf as [a|], rs as [|r0 rs], tf as [b|], t; cbn; intros H; injection H as <- <- <-;
+          (split; [discriminate|]); (split; [right|lia]); (split; [discriminate|]);
+          repeat split; cbn; intros; try tauto; try discriminate; try (left; assumption);
+          try (right; split; [reflexivity|]; eexists; split; [reflexivity|lia]);
+          try (right; split; reflexivity).
+Qed.
+
+(* the starter step is idempotent: run again right away (no deadline in between) it starts nothing more *)
+Lemma start_due_idempotent d nx fl p fl' p' nx' : start_due d nx fl p = (fl', p', nx') ->
+  start_due false nx' fl' p' = (fl', p', nx').
+Proof.
+  unfold start_due. destruct fl as [f0|rf tf]; cbn [is_full negb andb].
+  - intros H. injection H as <- <- <-. cbn. destruct p; reflexivity.
+  - destruct p as [|rs t]; cbn [orb].
+    + intros H. injection H as <- <- <-. reflexivity.
+    + destruct d; cbn [orb].
+      * intros H. injection H as <- <- <-. reflexivity.
+      * destruct rf as [a|], rs as [|r0 rs], tf as [b|], t; cbn; intros H; injection H as <- <- <-; reflexivity.
+Qed.
+
+(* at most one fetch per type, a full fetch alone - and a full fetch is started only by the due-full rule *)
+Lemma start_due_full_iff d nx fl p fl' p' nx' : start_due d nx fl p = (fl', p', nx') ->
+  (is_full fl' = true <-> is_full fl = true \/ p = PFull \/ d = true).
+Proof.
+  unfold start_due. destruct fl as [f0|rf tf]; cbn [is_full negb andb].
+  - intros H. injection H as <- _ _. cbn. tauto.
+  - destruct p as [|rs t]; cbn [orb].
+    + intros H. injection H as <- _ _. cbn. tauto.
+    + destruct d; cbn [orb].
+      * intros H. injection H as <- _ _. cbn. tauto.
+      * destruct rf, rs, tf, t; cbn; intros H; injection H as <- _ _; cbn;
+          (split; [discriminate|intros [H|[H|H]]; discriminate]).
+Qed.
